@@ -112,7 +112,7 @@ def n_classes(nz): return 2 * nz + 1
 
 
 def task_fromgeo(family, shape, atm, conv, order, angle, use_map, surf_cols=None, rot=None,
-                 translate=False, fix=None, mixmode='full', profile=False):
+                 translate=False, fix=None, mixmode='full', profile=False, built_atm=None):
     """One shape/configuration; all values symbolic.
     family 'rect': shape = (nx, ny, nz); 'mix5' / 'triquad' / 'quadfam': shape = nz.
     surf_cols: columns with a free symbolic surface (None = all); the others
@@ -128,7 +128,7 @@ def task_fromgeo(family, shape, atm, conv, order, angle, use_map, surf_cols=None
     state = dict(reached=0)
     expect_oracle_error = (order == 'dmplex' and family == 'mix5')
     cfg = dict(family=family, shape=shape, atm=atm, convention=conv, order=order, angle=angle,
-               use_map=use_map, rot=rot, translate=translate, mixmode=mixmode)
+               use_map=use_map, rot=rot, translate=translate, mixmode=mixmode, built_atm=built_atm)
 
     def h(c):
         if len(failures) >= MAX_FAILURES_PER_TASK: return 'not explored: the task already has counterexamples'
@@ -165,7 +165,9 @@ def task_fromgeo(family, shape, atm, conv, order, angle, use_map, surf_cols=None
 
         # ---- code under test
         try:
-            geo, _ = GB.build(M, family, inp, conv, atm, order, mesh)
+            geo, _ = GB.build(M, family, inp, conv, atm if built_atm is None else built_atm, order, mesh)
+            # a geometry created with one atmosphere type and switched to another afterwards
+            if built_atm is not None: geo.atmosphere_type = atm
             blockmap = GB.make_blockmap(geo) if use_map else {}
             mesh2, surf = GB.configure(geo, mesh, angle, atmvol, atmcon, surfaces, rot, pivot, shift)
             grid = T.t2grid().fromgeo(geo, blockmap)
@@ -252,12 +254,13 @@ def task_fromgeo(family, shape, atm, conv, order, angle, use_map, surf_cols=None
     res = sym.explore(h, GS.FastCtx(timeout_ms=30000), max_paths=20000, wall_s=TASK_WALL_S, profile_repo=profile)
     if state['reached'] == 0 and not expect_oracle_error:
         res['exhausted'] = False          # vacuous: never reached the obligations
-    name = '%s%s/atm%d/conv%d/%s/angle%g/%s%s%s%s%s%s' % (
+    name = '%s%s/atm%d/conv%d/%s/angle%g/%s%s%s%s%s%s%s' % (
         family, '%dx%dx%d' % tuple(shape) if family == 'rect' else '/nz%d' % shape, atm, conv, order, angle,
         'map' if use_map else 'nomap',
         '' if surf_cols is None else '/surf:' + ','.join(map(str, surf_cols)),
         '/rot-%s' % rot if rot else '', '/translated' if translate else '',
         '' if family in ('rect', 'quadfam') else '/' + mixmode,
+        '' if built_atm is None else '/built-as-atm%d' % built_atm,
         '' if not fix else '/fix:' + ','.join('%d=%d' % kv for kv in sorted(fix.items())))
     return report.summarize(name, res, failures, samples, extra=dict(distinct_obligations=len(distinct)))
 
@@ -306,6 +309,11 @@ def catalogue(tier):
     for i, (shape, atm) in enumerate([((2, 1, 2), 0), ((2, 1, 2), 1), ((2, 1, 2), 2), ((1, 2, 2), 0), ((1, 2, 2), 1),
                                       ((1, 2, 2), 2), ((1, 1, 2), 0), ((2, 1, 1), 1), ((1, 1, 1), 2)]):
         add(family='rect', shape=shape, atm=atm, conv=(i + 1) % 4, order=ORDERS[i % 3], angle=ANGLES[i % 3], use_map=bool(i % 2))
+    # (3b) atmosphere type assigned after construction (every ordered pair of types)
+    for i, (a0, a1) in enumerate([(0, 1), (0, 2), (1, 0), (1, 2), (2, 0), (2, 1)]):
+        # default surfaces (surf_cols=[]): setting a surface is followed by a refresh of the name lists
+        add(family='rect', shape=(2, 1, 2), atm=a1, built_atm=a0, conv=i % 4, order=ORDERS[i % 3], angle=ANGLES[i % 3], use_map=bool(i % 2), surf_cols=[])
+    add(family='quadfam', shape=2, atm=0, built_atm=2, conv=1, order=None, angle=0.0, use_map=False, surf_cols=[])
     # (4) rotated (exact rational rotation about a symbolic pivot) and translated (symbolic shift)
     add(family='rect', shape=(2, 1, 2), atm=0, conv=0, order=None, angle=30.0, use_map=False, rot='p345', translate=True, profile=True)
     add(family='rect', shape=(1, 2, 2), atm=1, conv=2, order=None, angle=0.0, use_map=True, rot='q90', surf_cols=[1])
